@@ -5,7 +5,7 @@ from ..common import hx, RUNDIR
 from ..gen import ev_tok, fl_tok, AUTHORS
 from ..storecheck import HistGen, strip_now
 
-THEOREMS = ['failed_store_noop', 'failed_store_observables', 'failed_store_keeps_offsets', 'store_refines_abstract', 'history_refines_abstract', 'every_history_refines_abstract', 'abstract_failed_store']
+THEOREMS = ['failed_store_noop', 'failed_store_observables', 'failed_store_keeps_offsets', 'store_refines_abstract', 'history_refines_abstract', 'every_history_refines_abstract', 'abstract_failed_store', 'error_before_commit_noop']
 
 
 def failing_under_fault(c, runner):
